@@ -1525,32 +1525,32 @@ class TaskPool:
                 # for an upcoming flow merge before spawning ... then spawn it.
                 c_task = self.spawn_task(c_name, c_point, itask.flow_nums)
 
-            tasks: List[TaskProxy]
-            if c_task is not None:
+            tasks: List[TaskProxy] = []
+            if is_abs:
+                # NOTE: Absolute triggers can have an infinite number of
+                # graph children, so only the first match is listed. We
+                # satisfy the prerequisite for all other tasks of the same
+                # name in the pool (even if the listed child can not be
+                # spawned, e.g. because it already ran), future task
+                # instances have their prereqs satisfied from the DB at
+                # spawn-time.
+                matched, _unmatched = self.id_match(
+                    {TaskTokens(cycle='*', task=c_name)},
+                    only_match_pool=True,
+                )
+                tasks = self.get_itasks(matched)
+            if c_task is not None and c_task not in tasks:
                 # Have child task, update its prerequisites.
-                if is_abs:
-                    # NOTE: Absolute triggers can have an infinite number of
-                    # graph children, so only the first match is listed. We
-                    # satisfy the prerequisite for all other tasks of the same
-                    # name in the pool, future task instances have their
-                    # prereqs satisfied from the DB at spawn-time.
-                    matched, _unmatched = self.id_match(
-                        {TaskTokens(cycle='*', task=c_name)},
-                        only_match_pool=True,
-                    )
-                    tasks = self.get_itasks(matched)
-                    if c_task not in tasks:
-                        tasks.append(c_task)
-                else:
-                    tasks = [c_task]
+                tasks.append(c_task)
 
+            if tasks:
                 for t in tasks:
                     t.satisfy_me(
                         [itask.tokens.duplicate(task_sel=output)],
                         mode=itask.run_mode
                     )
                     self.data_store_mgr.delta_task_prerequisite(t)
-                    if not in_pool:
+                    if t is c_task and not in_pool:
                         self.add_to_pool(t)
 
                     # Event-driven suicide.
